@@ -23,7 +23,7 @@ ASSUMPTIONS = [
 
 PROBE = "PrObE"
 DEFAULTS = ["v0", 11, "v2", 13, "v4", 15]
-NSK = 14
+NSK = 15
 
 
 class _Color(Enum):
@@ -90,6 +90,10 @@ def build(sk, d, V):
     if sk == 13:  # aliased array of values, array holding a term, array as comparison operand
         return (Q.from_(t).select(Array(V[0], V[1]).as_("x"), Array(t.a, V[2]).as_("y"))
                 .where(t.b == Array(V[3], 7)).where(t.c != V[4])), 5
+    if sk == 14:  # GROUP BY / ORDER BY by select-list position (positions are not values), on a query and on a set operation
+        q1 = Q.from_(t).select(t.a, fn.Coalesce(t.b, V[0])).where(t.c == V[1]).groupby(1).orderby(2)
+        q2 = Q.from_(u).select(u.a, u.b).where(u.c == V[2])
+        return q1.union(q2).orderby(1).limit(4), 3
     raise AssertionError(sk)
 
 
@@ -279,6 +283,8 @@ def check(name, sk, d, slot, v, exempt, args):
         for i in range(len(ph)):
             if ph[i] != placeholder(d, i + 1):
                 ok, why = False, "placeholder style/numbering"
+    if sk == 14 and not (" GROUP BY 1 ORDER BY 2" in psql and " ORDER BY 1 LIMIT " in psql):
+        ok, why = False, "a select-list position of GROUP BY / ORDER BY was bound as a value"
     # (2) plain data only
     for x in vals:
         if isinstance(x, Node):
@@ -342,7 +348,7 @@ def check(name, sk, d, slot, v, exempt, args):
     timeout={"quick": 120, "thorough": 900},
     witness=[dict(sk=0, d=2, slot=0, s="x'"), dict(sk=2, d=2, slot=1, s="ab"), dict(sk=4, d=1, slot=3, s="*"),
              dict(sk=7, d=2, slot=1, s="q")],
-    doc="14 skeletons x 6 dialect classes x value slot; the chosen slot holds any string (len<=L), the others distinct "
+    doc="15 skeletons x 6 dialect classes x value slot; the chosen slot holds any string (len<=L), the others distinct "
         "concrete values; '*' is the documented exemption",
 )
 def c04_str(sk: int, d: int, slot: int, s: str) -> int:
